@@ -14,6 +14,7 @@ package centrifuge
 // for HTTP streaming) and must yield exactly the messages, in order.
 
 import (
+	"runtime"
 	"context"
 	"io"
 	"net/http"
@@ -31,6 +32,7 @@ type vRespWriter struct {
 	body     []byte // every byte passed to Write, in order
 	flushes  int
 	flushedN int // len(body) at the last Flush: what the peer has received
+	slow     bool // Write parks once before it consumes its argument (stalled peer)
 }
 
 func (w *vRespWriter) Header() http.Header { return w.hdr }
@@ -42,6 +44,11 @@ func (w *vRespWriter) WriteHeader(code int) {
 func (w *vRespWriter) Write(b []byte) (int, error) {
 	if w.status == 0 {
 		w.status = 200
+	}
+	if w.slow {
+		// a ResponseWriter may block in Write; the caller's slice has to stay
+		// intact until Write returns
+		runtime.Gosched()
 	}
 	w.body = append(w.body, b...)
 	return len(b), nil
@@ -524,4 +531,61 @@ func vh_C32_http_stream_protobuf() {
 			vAssert(len(recs[i]) == len(msgs[i]) && vBytesEq(recs[i], msgs[i]), "record-equals-message")
 		}
 	}
+}
+
+// vh_C32_http_stream_protobuf_two_conns: two Protobuf HTTP-stream connections
+// of one node are written to by two threads at the same time; each response
+// writer parks once inside Write before it consumes the bytes (a stalled
+// peer), and the engine's sync.Pool hands a returned object to the next Get
+// (pool_reuse=1), so anything a handler still uses after giving it back to a
+// process-wide pool is seen by the other connection. Each connection must
+// still receive exactly its own records.
+func vh_C32_http_stream_protobuf_two_conns() {
+	n := vNewNode(Config{})
+	h := NewHTTPStreamHandler(n, HTTPStreamConfig{})
+	var cns [2]*vC32Conn
+	var msgs [2][][]byte
+	for c := 0; c < 2; c++ {
+		cns[c] = vC32Serve(h, "application/octet-stream")
+		cns[c].w.slow = true
+		nm := 1 + vChoice("nmsgs", 2)
+		for i := 0; i < nm; i++ {
+			l := 1 + vChoice("len", 3)
+			m := make([]byte, l)
+			for k := range m {
+				m[k] = vByte("b")
+			}
+			msgs[c] = append(msgs[c], m)
+		}
+	}
+	vAssert(cns[0].client != cns[1].client, "two-clients")
+	var sent [2]bool
+	for c := 0; c < 2; c++ {
+		c := c
+		go func() {
+			if err := cns[c].client.transport.WriteMany(msgs[c]...); err != nil {
+				vFail("WriteMany failed")
+			}
+			sent[c] = true
+		}()
+	}
+	vSettle()
+	vAssert(sent[0] && sent[1], "both-writes-acknowledged")
+	for c := 0; c < 2; c++ {
+		vC32End(cns[c], c)
+		w := cns[c].w
+		var wantLens []int
+		for _, m := range msgs[c] {
+			wantLens = append(wantLens, len(m))
+		}
+		recs, bad := vC32SplitVarint(w.body, wantLens)
+		vAssert(!bad, "well-formed-length-prefixed-stream")
+		vAssert(len(recs) == len(msgs[c]), "one-record-per-message")
+		for i := range msgs[c] {
+			if i < len(recs) {
+				vAssert(len(recs[i]) == len(msgs[c][i]) && vBytesEq(recs[i], msgs[c][i]), "record-equals-message")
+			}
+		}
+	}
+	vCover(len(msgs[0]) == len(msgs[1]) && len(msgs[0][0]) == len(msgs[1][0]), "same-shape-frames")
 }
